@@ -88,7 +88,7 @@ Section filt.
     subst o. cbn [Z.gtb Z.compare].
     destruct (flt a) as [[|]|] eqn:Ef; [| contradiction |].
     - (* -F hit *)
-      unfold with_fc. cbn [fc enabled cached stack ridx out warned in_count out_count depth max_depth ftime fsize].
+      unfold with_fc. cbn [fstate fc enabled cached stack ridx out warned in_count out_count depth max_depth ftime fsize].
       assert (E : (gd <=? 0) = false) by lia. rewrite E.
       unfold entry_record.
       cbn [fc enabled cached stack ridx out warned in_count out_count fsize f_flags norecord f_addr f_start f_depth
@@ -100,7 +100,7 @@ Section filt.
     - destruct Hk as [Hsc Hdp].
       assert (E0 : (fm && (i =? 0)%Z) = false) by (destruct Hsc as [->|Hp]; [reflexivity|destruct fm; lia]).
       rewrite E0.
-      unfold with_fc. cbn [fc enabled cached stack ridx out warned in_count out_count depth max_depth ftime fsize].
+      unfold with_fc. cbn [fstate fc enabled cached stack ridx out warned in_count out_count depth max_depth ftime fsize].
       assert (E : (gd <=? dp) = false) by lia. rewrite E.
       unfold entry_record.
       cbn [fc enabled cached stack ridx out warned in_count out_count fsize f_flags norecord f_addr f_start f_depth
@@ -109,5 +109,391 @@ Section filt.
       assert (E2 : ((i =? 0)%Z && fm) = false) by (destruct Hsc as [->|Hp]; [apply andb_false_r|destruct fm; lia]).
       cbn [fcfg fmode_in ftrig t_filter t_trace t_caller sym_size]. rewrite ?orb_false_r, E2.
       destruct sh; split; reflexivity.
+  Qed.
+
+  (* -N hit: counted, frame pushed (both shapes) but never recorded *)
+  Lemma enter_notrace s i dp a t :
+    fc s = fstate i 0 dp -> enabled s = true -> idx s < ms -> 0 < gd -> flt a = Some false ->
+    do_enter c s a t =
+    {| fc := fstate i 1 1; enabled := true; cached := cached s;
+       stack := gframe sh true false true a t (ridx s) (fstate i 0 dp) :: stack s;
+       ridx := ridx s; out := out s; warned := false |} /\ hooked c s a = true.
+  Proof.
+    intros Hfc Hen Hi Hgd Hk. open_entry Hi. rewrite Hfc, Hen.
+    cbn [fstate in_count out_count depth max_depth ftime fsize]. rewrite N.eqb_refl.
+    cbn [Z.gtb Z.compare]. rewrite Hk.
+    unfold with_fc. cbn [fstate fc enabled cached stack ridx out warned in_count out_count depth max_depth ftime fsize].
+    assert (E : (gd <=? 0) = false) by lia. rewrite E.
+    unfold entry_record.
+    cbn [fc enabled cached stack ridx out warned in_count out_count fsize f_flags norecord f_addr f_start f_depth
+         t_filter t_trace t_caller t_trace_on t_trace_off orb andb noflags cygprof Z.gtb Z.compare N.ltb N.compare
+         fmode_in sym_size Z.add Pos.add].
+    cbn [fcfg fmode_in ftrig t_filter t_trace t_caller sym_size].
+    destruct sh; cbn [orb]; split; reflexivity.
+  Qed.
+
+  (* rejected entry: inside -N, outside every -F, or depth budget used up *)
+  Lemma enter_reject s i o dp a t :
+    fc s = fstate i o dp -> enabled s = true -> idx s < ms -> (0 <= o)%Z ->
+    ((0 < o)%Z \/ (flt a = None /\ ((fm = true /\ i = 0%Z) \/ gd <= dp))) ->
+    match sh with
+    | PG => do_enter c s a t =
+            {| fc := fc s; enabled := enabled s; cached := cached s; stack := stack s; ridx := ridx s;
+               out := out s; warned := false |} /\ hooked c s a = false
+    | CYG => do_enter c s a t =
+             {| fc := fc s; enabled := enabled s; cached := cached s;
+                stack := gframe CYG true false false a 0 (ridx s) (fstate i o dp) :: stack s;
+                ridx := ridx s; out := out s; warned := false |} /\ hooked c s a = true
+    end.
+  Proof.
+    intros Hfc Hen Hi Ho Hk. 
+    assert (Hsh : sh = PG \/ sh = CYG) by (destruct sh; auto).
+    open_entry Hi. rewrite Hfc.
+    cbn [fstate in_count out_count depth max_depth ftime fsize]. rewrite N.eqb_refl.
+    destruct (o >? 0)%Z eqn:Eo.
+    - destruct Hsh as [-> | ->]; [split; reflexivity|]. split; [|reflexivity].
+      unfold entry_record.
+      cbn [fc enabled cached stack ridx out warned in_count out_count fsize f_flags norecord f_addr f_start f_depth
+           t_filter t_trace t_caller notrig orb]. reflexivity.
+    - destruct Hk as [Hk|(Hf & Hk)]; [lia|]. rewrite Hf.
+      destruct Hk as [(-> & ->)|Hd].
+      + cbn [andb Z.eqb]. unfold with_fc.
+        destruct Hsh as [-> | ->]; [split; reflexivity|]. split; [|reflexivity].
+        unfold entry_record.
+        cbn [fc enabled cached stack ridx out warned in_count out_count fsize f_flags norecord f_addr f_start f_depth
+             t_filter t_trace t_caller ftrig orb]. reflexivity.
+      + destruct (fm && (i =? 0)%Z).
+        * unfold with_fc. destruct Hsh as [-> | ->]; [split; reflexivity|]. split; [|reflexivity].
+          unfold entry_record.
+          cbn [fc enabled cached stack ridx out warned in_count out_count fsize f_flags norecord f_addr f_start f_depth
+               t_filter t_trace t_caller ftrig orb]. reflexivity.
+        * unfold with_fc. cbn [fstate fc enabled cached stack ridx out warned in_count out_count depth max_depth ftime fsize].
+          assert (E : (gd <=? dp) = true) by lia. rewrite E.
+          destruct Hsh as [-> | ->]; [split; reflexivity|]. split; [|reflexivity].
+          unfold entry_record.
+          cbn [fc enabled cached stack ridx out warned in_count out_count fsize f_flags norecord f_addr f_start f_depth
+               t_filter t_trace t_caller ftrig orb]. reflexivity.
+  Qed.
+
+  Definition gf (w : bool) (flt_hit : bool) (a t r : N) (f0 : fctl) : frame :=
+    if w then set_written (gframe sh false flt_hit false a t r f0) else gframe sh false flt_hit false a t r f0.
+
+  Lemma flush_anc_gf flt_hit a t r f0 stk :
+    flush_anc (gf false flt_hit a t r f0 :: stk) =
+    (gf true flt_hit a t r f0 :: fst (flush_anc stk),
+     snd (flush_anc stk) ++ [entry_rec (gframe sh false flt_hit false a t r f0)]).
+  Proof.
+    cbn [gf flush_anc gframe f_flags gfl written]. destruct (flush_anc stk) as [rest' recs].
+    unfold skip. cbn [f_flags gfl norecord disabled orb fst snd]. reflexivity.
+  Qed.
+
+  (* exit of a recorded frame (no threshold, the call took at least one tick) *)
+  Lemma leave_rec s w flt_hit a t0 r i0 o0 dp0 t1 anc i o dp :
+    stack s = gf w flt_hit a t0 r (fstate i0 o0 dp0) :: anc -> fc s = fstate i o dp -> enabled s = true ->
+    ridx s = r + 1 -> t0 < t1 -> t1 < 18446744073709551616 ->
+    do_leave c s t1 =
+    {| fc := fstate (if flt_hit then i - 1 else i)%Z o dp0; enabled := true; cached := cached s;
+       stack := if w then anc else fst (flush_anc anc); ridx := r;
+       out := out s ++ (if w then [] else snd (flush_anc anc) ++ [E_ a t0 r]) ++ [X_ a t1 r];
+       warned := warned s |}.
+  Proof.
+    intros Hst Hfc Hen Hr Ht Hlt. unfold do_leave. rewrite Hst.
+    set (fr := gf w flt_hit a t0 r (fstate i0 o0 dp0)).
+    assert (Hg : f_ghost fr = false) by (subst fr; destruct w; reflexivity). rewrite Hg.
+    assert (Hnr : norecord (f_flags fr) = false) by (subst fr; destruct w; reflexivity).
+    assert (Hsame : match shp c with
+                    | PG => exit_record c s (set_end fr t1) anc
+                    | CYG => exit_record c s (if norecord (f_flags fr) then fr else set_end fr t1) anc
+                    end = exit_record c s (set_end fr t1) anc).
+    { rewrite Hnr. destruct (shp c); reflexivity. }
+    rewrite Hsame. clear Hsame.
+    unfold exit_record. rewrite Hfc, Hen, Hr.
+    cbn [fstate ftime in_count out_count]. rewrite N.eqb_refl.
+    assert (Hdur : (f_end (set_end fr t1) + 18446744073709551616 - f_start (set_end fr t1))
+                   mod 18446744073709551616 = t1 - t0).
+    { assert (f_end (set_end fr t1) = t1) as -> by reflexivity.
+      assert (f_start (set_end fr t1) = t0) as -> by (subst fr; destruct w; reflexivity).
+      replace (t1 + 18446744073709551616 - t0) with ((t1 - t0) + 1 * 18446744073709551616) by lia.
+      rewrite N.mod_add by lia. apply N.mod_small. lia. }
+    rewrite Hdur.
+    assert (Hfl : f_flags (set_end fr t1) = f_flags fr) by reflexivity. rewrite Hfl, Hnr.
+    assert (Hfi : filtered (f_flags fr) = flt_hit) by (subst fr; destruct w; reflexivity).
+    assert (Hnt : notrace (f_flags fr) = false) by (subst fr; destruct w; reflexivity).
+    assert (Hft : ftrace (f_flags fr) = false) by (subst fr; destruct w; reflexivity).
+    assert (Hw : written (f_flags fr) = w) by (subst fr; destruct w; reflexivity).
+    rewrite Hfi, Hnt, Hft, Hw.
+    assert (Hsv : sv_depth (set_end fr t1) = dp0 /\ sv_max (set_end fr t1) = FILTER_NO_MAX_DEPTH
+                  /\ sv_time (set_end fr t1) = NO_TIME /\ sv_size (set_end fr t1) = 0)
+      by (subst fr; destruct w; repeat split; reflexivity).
+    destruct Hsv as (-> & -> & -> & ->).
+    assert (Hr1 : (0 <? r + 1) = true) by lia. rewrite Hr1.
+    replace (r + 1 - 1) with r by lia.
+    unfold c. cbn [fcfg has_caller threshold negb andb orb].
+    assert (Hd0 : (0 <? t1 - t0) = true) by lia. rewrite Hd0. cbn [andb orb].
+    unfold record_trace_data. rewrite Hfl, Hw.
+    assert (Hend : (f_end (set_end fr t1) =? 0) = false) by (cbn [set_end f_end]; lia).
+    assert (Hfc' : {| in_count := if flt_hit then (i - 1)%Z else i; out_count := if flt_hit then o else o;
+                      depth := dp0; max_depth := FILTER_NO_MAX_DEPTH; ftime := NO_TIME; fsize := 0 |}
+                   = fstate (if flt_hit then (i - 1)%Z else i) o dp0) by (destruct flt_hit; reflexivity).
+    rewrite Hfc'.
+    destruct w.
+    - cbn [orb]. rewrite Hend. cbn [app]. unfold exit_rec, X_. subst fr.
+      cbn [set_end gf set_written gframe f_end f_depth f_addr]. reflexivity.
+    - unfold skip. rewrite Hfl. subst fr. cbn [gf gframe f_flags gfl norecord disabled orb].
+      destruct (flush_anc anc) as [anc' pre] eqn:EF. cbn [fst snd].
+      assert (Hend' : (f_end (set_written (set_end (gframe sh false flt_hit false a t0 r (fstate i0 o0 dp0)) t1)) =? 0) = false)
+        by (cbn [set_written set_end f_end]; lia).
+      cbn [gf] in *. rewrite Hend'.
+      unfold exit_rec, entry_rec, E_, X_. cbn [set_written set_end gframe f_end f_depth f_addr f_start].
+      rewrite <- !app_assoc. reflexivity.
+  Qed.
+
+  (* exit of a frame that is not recorded (-N function itself, or a rejected call under cygprof) *)
+  Lemma leave_norec s flt_hit ntr a t0 r i0 o0 dp0 t1 anc i o dp :
+    stack s = gframe sh true flt_hit ntr a t0 r (fstate i0 o0 dp0) :: anc -> fc s = fstate i o dp ->
+    do_leave c s t1 =
+    {| fc := fstate (if flt_hit then i - 1 else i)%Z (if flt_hit then o else if ntr then o - 1 else o)%Z dp0;
+       enabled := enabled s; cached := cached s; stack := anc; ridx := ridx s; out := out s; warned := warned s |}.
+  Proof.
+    intros Hst Hfc. unfold do_leave. rewrite Hst. cbn [gframe f_ghost f_flags gfl norecord].
+    assert (Hsame : forall fr', f_flags fr' = gfl sh true flt_hit ntr ->
+                    sv_depth fr' = dp0 -> sv_max fr' = FILTER_NO_MAX_DEPTH -> sv_time fr' = NO_TIME -> sv_size fr' = 0 ->
+                    exit_record c s fr' anc =
+                    {| fc := fstate (if flt_hit then i - 1 else i)%Z (if flt_hit then o else if ntr then o - 1 else o)%Z dp0;
+                       enabled := enabled s; cached := cached s; stack := anc; ridx := ridx s; out := out s;
+                       warned := warned s |}).
+    { intros fr' Hf H1 H2 H3 H4. unfold exit_record. rewrite Hf, Hfc, H1, H2, H3, H4.
+      cbn [gfl norecord filtered notrace fstate in_count out_count]. reflexivity. }
+    destruct (shp c); apply Hsame; reflexivity.
+  Qed.
+
+  (* ---------------------------------------------------------------- the refinement *)
+  Definition afterg (s s' : st) (d : N) (R : list rec) : Prop :=
+    fc s' = fc s /\ enabled s' = true /\ cached s' = cached s /\ ridx s' = d /\
+    stack s' = (if is_nil R then stack s else fst (flush_anc (stack s))) /\
+    out s' = out s ++ (if is_nil R then [] else snd (flush_anc (stack s))) ++ R.
+
+  Lemma afterg_idx s s' d R : afterg s s' d R -> idx s' = idx s.
+  Proof.
+    intros (_ & _ & _ & _ & Hst & _). unfold idx. rewrite Hst.
+    destruct (is_nil R); [reflexivity|]. rewrite flush_anc_length. reflexivity.
+  Qed.
+  Lemma afterg_nil s d : enabled s = true -> ridx s = d -> afterg s s d [].
+  Proof. intros. unfold afterg. cbn. rewrite app_nil_r. auto 10. Qed.
+  Lemma afterg_trans s s1 s2 d R1 R2 : afterg s s1 d R1 -> afterg s1 s2 d R2 -> afterg s s2 d (R1 ++ R2).
+  Proof.
+    intros (F1 & E1 & C1 & I1 & S1 & O1) (F2 & E2 & C2 & I2 & S2 & O2).
+    unfold afterg. repeat split; try assumption; try congruence.
+    - rewrite S2, S1. destruct R1 as [|x R1]; cbn [is_nil app].
+      + reflexivity.
+      + destruct (is_nil R2); [reflexivity|]. rewrite flush_anc_idem. reflexivity.
+    - rewrite O2, O1, S1. destruct R1 as [|x R1]; cbn [is_nil app].
+      + rewrite app_nil_r. reflexivity.
+      + destruct R2 as [|y R2]; cbn [is_nil].
+        * rewrite !app_nil_r. cbn [app]. reflexivity.
+        * rewrite flush_anc_idem. cbn [snd app]. rewrite <- !app_assoc. cbn [app]. reflexivity.
+  Qed.
+
+  (* how the counters of the automaton encode the context of the specification *)
+  Definition Rel (i o : Z) (dp : N) (x : sctx) : Prop :=
+    (0 <= i)%Z /\ (0 <= o)%Z /\ (dead x = true <-> (0 < o)%Z) /\
+    (dead x = false -> (scope x = true <-> (fm = false \/ (0 < i)%Z)) /\ budget x = gd - dp /\ dp <= gd).
+
+  Lemma sel_dead x d k : dead x = true -> sel flt gd x d k = [].
+  Proof. intro H. destruct k. cbn [sel]. rewrite H. reflexivity. Qed.
+  Lemma sel_dead_list x d ks : dead x = true -> flat_map (sel flt gd x d) ks = [].
+  Proof. intro H. induction ks as [|k r IH]; cbn [flat_map]; [reflexivity|]. rewrite sel_dead, IH; auto. Qed.
+
+  Hypothesis Hgd : 0 < gd.
+
+  Lemma run_kids_sel (ks : list call) :
+    Forall (fun k => timed k -> positive k -> forall s hk i o dp x d,
+                     fc s = fstate i o dp -> Rel i o dp x -> enabled s = true -> ridx s = d ->
+                     idx s + height k <= ms ->
+                     exists s', exec c (flat k) (s, hk) = (s', hk) /\ afterg s s' d (sel flt gd x d k)) ks ->
+    all_timed ks -> all_positive ks -> forall s hk i o dp x d,
+    fc s = fstate i o dp -> Rel i o dp x -> enabled s = true -> ridx s = d -> idx s + heights ks <= ms ->
+    exists s', exec c (flat_map flat ks) (s, hk) = (s', hk) /\ afterg s s' d (flat_map (sel flt gd x d) ks).
+  Proof.
+    induction 1 as [|k r Hk _ IH]; intros HT HP s hk i o dp x d Hfc HR Hen Hr Hh.
+    - exists s. split; [reflexivity|]. apply afterg_nil; assumption.
+    - destruct HT as [Tk Tr]. destruct HP as [Pk Pr]. cbn [heights fold_right] in Hh. fold (heights r) in Hh.
+      destruct (Hk Tk Pk s hk i o dp x d Hfc HR Hen Hr) as (s1 & E1 & A1); [lia|].
+      pose proof (afterg_idx _ _ _ _ A1) as I1.
+      assert (A1' := A1). destruct A1' as (F1 & En1 & _ & R1 & _ & _).
+      destruct (IH Tr Pr s1 hk i o dp x d) as (s2 & E2 & A2); try assumption; [congruence|lia|].
+      exists s2. split.
+      + cbn [flat_map]. unfold exec in *. rewrite fold_left_app, E1. exact E2.
+      + cbn [flat_map]. eapply afterg_trans; eassumption.
+  Qed.
+
+  Theorem run_call_sel : forall k, timed k -> positive k -> forall s hk i o dp x d,
+    fc s = fstate i o dp -> Rel i o dp x -> enabled s = true -> ridx s = d -> idx s + height k <= ms ->
+    exists s', exec c (flat k) (s, hk) = (s', hk) /\ afterg s s' d (sel flt gd x d k).
+  Proof.
+    induction k as [a t0 t1 kids IH] using call_ind'. intros HT HP s hk i o dp x d Hfc HR Hen Hr Hh.
+    pose proof (run_kids_sel kids IH (timed_kids _ _ _ _ HT)) as RK. clear IH.
+    assert (PK : all_positive kids).
+    { destruct HP as (_ & H). clear -H. induction kids; cbn in *; tauto. }
+    specialize (RK PK).
+    destruct HT as (Ht01 & Ht1 & Hpos & _). destruct HP as (Hlt & _).
+    cbn [height] in Hh. fold (heights kids) in Hh.
+    assert (Hi : idx s < ms) by lia.
+    destruct HR as (Hi0 & Ho0 & Hdead & Hlive).
+    cbn [flat]. unfold exec. cbn [fold_left dstep]. rewrite fold_left_app. cbn [fold_left].
+    assert (Hsh : sh = PG \/ sh = CYG) by (destruct sh; auto).
+    (* a rejected entry: run the kids in the same context, nothing recorded for this call *)
+    assert (REJ : ((0 < o)%Z \/ (flt a = None /\ ((fm = true /\ i = 0%Z) \/ gd <= dp))) ->
+                  forall Rk, Rk = flat_map (sel flt gd x d) kids ->
+                  exists s', dstep c (fold_left (dstep c) (flat_map flat kids)
+                                        (do_enter c s a t0, hooked c s a :: hk)) (Leave t1) = (s', hk)
+                             /\ afterg s s' d Rk).
+    { intros Hrej Rk ->.
+      pose proof (enter_reject s i o dp a t0 Hfc Hen Hi Ho0 Hrej) as ER.
+      destruct Hsh as [Es|Es]; rewrite Es in ER; destruct ER as [Een Hhk]; rewrite Een, Hhk.
+      - destruct (RK {| fc := fc s; enabled := enabled s; cached := cached s; stack := stack s; ridx := ridx s;
+                        out := out s; warned := false |} (false :: hk) i o dp x d Hfc) as (s2 & E2 & A2);
+          try assumption; [repeat split; assumption| unfold idx in *; cbn [stack]; lia |].
+        unfold exec in E2. rewrite E2. cbn [dstep]. exists s2. split; [reflexivity|].
+        destruct A2 as (F2 & En2 & C2 & R2 & S2 & O2). cbn [stack out cached fc] in *.
+        unfold afterg. auto 10.
+      - destruct (RK {| fc := fc s; enabled := enabled s; cached := cached s;
+                        stack := gframe CYG true false false a 0 (ridx s) (fstate i o dp) :: stack s;
+                        ridx := ridx s; out := out s; warned := false |} (true :: hk) i o dp x d Hfc)
+          as (s2 & E2 & A2); try assumption; [repeat split; assumption| unfold idx in *; cbn [stack length]; lia |].
+        unfold exec in E2. rewrite E2. cbn [dstep].
+        destruct A2 as (F2 & En2 & C2 & R2 & S2 & O2). cbn [stack out cached fc] in *.
+        (* the NORECORD frame is skipped by every flush: it is still on top, unchanged *)
+        assert (S2' : stack s2 = gframe CYG true false false a 0 (ridx s) (fstate i o dp) ::
+                                 (if is_nil (flat_map (sel flt gd x d) kids) then stack s else fst (flush_anc (stack s)))).
+        { rewrite S2. destruct (is_nil _); [reflexivity|].
+          cbn [flush_anc gframe f_flags gfl written]. destruct (flush_anc (stack s)) as [r' rc'].
+          unfold skip. cbn [f_flags gfl norecord orb fst]. reflexivity. }
+        assert (O2' : out s2 = out s ++ (if is_nil (flat_map (sel flt gd x d) kids) then [] else snd (flush_anc (stack s)))
+                             ++ flat_map (sel flt gd x d) kids).
+        { rewrite O2. destruct (is_nil _); [reflexivity|].
+          cbn [flush_anc gframe f_flags gfl written]. destruct (flush_anc (stack s)) as [r' rc'].
+          unfold skip. cbn [f_flags gfl norecord orb snd]. reflexivity. }
+        rewrite Es in *. rewrite F2, Hfc in *.
+        rewrite (leave_norec s2 false false a 0 (ridx s) i o dp t1 _ i o dp S2' F2).
+        eexists. split; [reflexivity|].
+        unfold afterg. cbn [fc enabled cached ridx stack out]. rewrite Hfc.
+        repeat split; try assumption; congruence. }
+    cbn [sel].
+    destruct (dead x) eqn:Ed.
+    - (* inside -N *)
+      assert (Hop : (0 < o)%Z) by (apply Hdead; reflexivity).
+      apply (REJ (or_introl Hop)). symmetry. apply sel_dead_list. exact Ed.
+    - assert (Ho : o = 0%Z).
+      { destruct (Z.eq_dec o 0) as [|Hne]; [assumption|]. assert (false = true) by (apply Hdead; lia). discriminate. }
+      subst o. destruct (Hlive eq_refl) as (Hsc & Hb & Hdp). clear Hlive.
+      destruct (flt a) as [[|]|] eqn:Ef.
+      + (* -F hit *)
+        destruct (enter_accept s i 0 dp a t0 Hfc Hen Hi eq_refl Hi0 Hgd) as [Een Hhk]; [rewrite Ef; exact I|].
+        rewrite Ef in Een. rewrite Een, Hhk.
+        set (s1 := {| fc := fstate (i + 1) 0 1; enabled := true; cached := cached s;
+                      stack := gframe sh false true false a t0 (ridx s) (fstate i 0 dp) :: stack s;
+                      ridx := ridx s + 1; out := out s; warned := false |}).
+        destruct (RK s1 (true :: hk) (i + 1)%Z 0%Z 1 {| dead := false; scope := true; budget := gd - 1 |} (d + 1))
+          as (s2 & E2 & A2); try reflexivity.
+        { repeat split; cbn [dead scope budget]; try lia; try discriminate; intros; auto; try lia. right; lia. }
+        { subst s1. cbn [ridx]. lia. }
+        { subst s1. unfold idx in *. cbn [stack length]. lia. }
+        unfold exec in E2. rewrite E2. cbn [dstep].
+        destruct A2 as (F2 & En2 & C2 & R2 & S2 & O2). subst s1. cbn [stack out cached fc] in *.
+        set (Rk := flat_map (sel flt gd {| dead := false; scope := true; budget := gd - 1 |} (d + 1)) kids) in *.
+        change (gframe sh false true false a t0 (ridx s) (fstate i 0 dp)) with (gf false true a t0 (ridx s) (fstate i 0 dp)) in S2, O2.
+        rewrite flush_anc_gf in S2, O2. cbn [fst snd] in S2, O2.
+        assert (S2' : stack s2 = gf (negb (is_nil Rk)) true a t0 (ridx s) (fstate i 0 dp) ::
+                                 (if is_nil Rk then stack s else fst (flush_anc (stack s)))).
+        { rewrite S2. destruct (is_nil Rk); reflexivity. }
+        rewrite (leave_rec s2 (negb (is_nil Rk)) true a t0 (ridx s) i 0 dp t1 _ (i + 1)%Z 0%Z 1 S2' F2 En2)
+          by (try assumption; lia).
+        eexists. split; [reflexivity|].
+        unfold afterg. cbn [fc enabled cached ridx stack out is_nil].
+        replace (i + 1 - 1)%Z with i by lia. rewrite Hfc.
+        repeat split; try assumption; try congruence.
+        * destruct (is_nil Rk); reflexivity.
+        * rewrite O2, Hr. unfold entry_rec, E_. cbn [gframe f_start f_depth f_addr].
+          destruct (is_nil Rk) eqn:EN; cbn [negb].
+          -- destruct Rk; [|discriminate]. cbn [app]. rewrite <- !app_assoc. cbn [app]. reflexivity.
+          -- cbn [app]. rewrite <- !app_assoc. cbn [app]. reflexivity.
+      + (* -N hit: this call and everything below is hidden *)
+        destruct (enter_notrace s i dp a t0 Hfc Hen Hi Hgd Ef) as [Een Hhk]. rewrite Een, Hhk.
+        set (s1 := {| fc := fstate i 1 1; enabled := true; cached := cached s;
+                      stack := gframe sh true false true a t0 (ridx s) (fstate i 0 dp) :: stack s;
+                      ridx := ridx s; out := out s; warned := false |}).
+        destruct (RK s1 (true :: hk) i 1%Z 1 {| dead := true; scope := false; budget := 0 |} d)
+          as (s2 & E2 & A2); try reflexivity; try assumption.
+        { repeat split; cbn [dead]; try lia; try discriminate; intros; auto; lia. }
+        { subst s1. unfold idx in *. cbn [stack length]. lia. }
+        unfold exec in E2. rewrite E2. cbn [dstep].
+        rewrite sel_dead_list in A2 by reflexivity.
+        destruct A2 as (F2 & En2 & C2 & R2 & S2 & O2). subst s1. cbn [stack out cached fc is_nil app] in *.
+        rewrite app_nil_r in O2.
+        rewrite (leave_norec s2 false true a t0 (ridx s) i 0 dp t1 _ i 1%Z 1 S2 F2).
+        eexists. split; [reflexivity|].
+        unfold afterg. cbn [fc enabled cached ridx stack out is_nil app]. rewrite Hfc, app_nil_r.
+        replace (1 - 1)%Z with 0%Z by lia.
+        repeat split; try assumption; congruence.
+      + (* no filter on this function *)
+        destruct (scope x && (0 <? budget x)) eqn:Eacc.
+        * apply andb_true_iff in Eacc. destruct Eacc as [Esc Ebud].
+          assert (Hsc' : fm = false \/ (0 < i)%Z) by (apply Hsc; exact Esc).
+          assert (Hlt' : dp < gd) by lia.
+          destruct (enter_accept s i 0 dp a t0 Hfc Hen Hi eq_refl Hi0 Hgd) as [Een Hhk]; [rewrite Ef; split; assumption|].
+          rewrite Ef in Een. rewrite Een, Hhk.
+          set (s1 := {| fc := fstate i 0 (dp + 1); enabled := true; cached := cached s;
+                        stack := gframe sh false false false a t0 (ridx s) (fstate i 0 dp) :: stack s;
+                        ridx := ridx s + 1; out := out s; warned := false |}).
+          destruct (RK s1 (true :: hk) i 0%Z (dp + 1) {| dead := false; scope := scope x; budget := budget x - 1 |} (d + 1))
+            as (s2 & E2 & A2); try reflexivity.
+          { repeat split; cbn [dead scope budget]; try lia; try discriminate; intros; try (apply Hsc; assumption); try lia.
+            apply Hsc. assumption. }
+          { subst s1. cbn [ridx]. lia. }
+          { subst s1. unfold idx in *. cbn [stack length]. lia. }
+          unfold exec in E2. rewrite E2. cbn [dstep].
+          destruct A2 as (F2 & En2 & C2 & R2 & S2 & O2). subst s1. cbn [stack out cached fc] in *.
+          set (Rk := flat_map (sel flt gd {| dead := false; scope := scope x; budget := budget x - 1 |} (d + 1)) kids) in *.
+          change (gframe sh false false false a t0 (ridx s) (fstate i 0 dp)) with (gf false false a t0 (ridx s) (fstate i 0 dp)) in S2, O2.
+          rewrite flush_anc_gf in S2, O2. cbn [fst snd] in S2, O2.
+          assert (S2' : stack s2 = gf (negb (is_nil Rk)) false a t0 (ridx s) (fstate i 0 dp) ::
+                                   (if is_nil Rk then stack s else fst (flush_anc (stack s)))).
+          { rewrite S2. destruct (is_nil Rk); reflexivity. }
+          rewrite (leave_rec s2 (negb (is_nil Rk)) false a t0 (ridx s) i 0 dp t1 _ i 0%Z (dp + 1) S2' F2 En2)
+            by (try assumption; lia).
+          eexists. split; [reflexivity|].
+          unfold afterg. cbn [fc enabled cached ridx stack out is_nil]. rewrite Hfc.
+          repeat split; try assumption; try congruence.
+          -- destruct (is_nil Rk); reflexivity.
+          -- rewrite O2, Hr. unfold entry_rec, E_. cbn [gframe f_start f_depth f_addr].
+             destruct (is_nil Rk) eqn:EN; cbn [negb].
+             ++ destruct Rk; [|discriminate]. cbn [app]. rewrite <- !app_assoc. cbn [app]. reflexivity.
+             ++ cbn [app]. rewrite <- !app_assoc. cbn [app]. reflexivity.
+        * (* outside every -F, or the depth budget is used up *)
+          apply REJ; [|reflexivity]. right. split; [reflexivity|].
+          apply andb_false_iff in Eacc. destruct Eacc as [Esc|Ebud].
+          -- left. destruct fm eqn:Efm.
+             ++ split; [reflexivity|]. destruct (Z.eq_dec i 0) as [|Hne]; [assumption|].
+                assert (scope x = true) by (apply Hsc; right; lia). congruence.
+             ++ assert (scope x = true) by (apply Hsc; left; reflexivity). congruence.
+          -- right. lia.
+  Qed.
+
+  Theorem run_forest_sel : forall f, all_timed f -> all_positive f -> heights f <= ms ->
+    out (fst (exec c (flat_forest f) (init, []))) = flat_map (sel flt gd (x0 fm gd) 0) f.
+  Proof.
+    intros f HT HP Hh.
+    destruct (run_kids_sel f) with (s := init) (hk := @nil bool) (i := 0%Z) (o := 0%Z) (dp := 0) (x := x0 fm gd) (d := 0)
+      as (s' & E & A); try reflexivity; try assumption.
+    - clear -Hgd. induction f as [|k r IH]; constructor; [|exact IH].
+      intros Tk Pk s hk i o dp x d. apply run_call_sel; assumption.
+    - unfold Rel, x0. cbn [dead scope budget]. repeat split; try lia; try discriminate; intros.
+      + destruct fm; cbn in *; [discriminate|left; reflexivity].
+      + destruct H0 as [->|]; [reflexivity|lia].
+    - cbn. lia.
+    - unfold flat_forest. rewrite E. cbn [fst].
+      destruct A as (_ & _ & _ & _ & _ & O). rewrite O. cbn [init out stack flush_anc snd app].
+      destruct (is_nil _); reflexivity.
   Qed.
 End filt.
